@@ -28,7 +28,7 @@ EXPLANATION = (
     "error. base64: concrete content, solver-chosen slicing of the writes.")
 ASSUMPTIONS = [
     "part bodies do not contain CRLF + '--' + boundary and do not begin with '--' + boundary (multipart requires the boundary not to occur in the content); asserted as a solver assumption before the code runs",
-    "gzip/deflate part encodings (zlib) and base64/quoted-printable on symbolic content (binascii) are FFI: base64 is exercised with concrete content and solver-chosen write slicing only",
+    "gzip/deflate part encodings (zlib) and base64/quoted-printable (binascii) are FFI: they run natively on concrete contents chosen by the solver (8 contents incl. CRLF, '=', trailing blanks, 8-bit bytes, a delimiter look-alike) in the codec-parts job, with nesting on/off and one cut; base64 additionally with solver-chosen write slicing",
     "header block of the enclosing message is a plain dict {'Content-Type': 'multipart/...; boundary=b'}",
     "multidict.CIMultiDict replaced by SymCIMultiDict inside HeadersParser while part header names may be symbolic (termination runs)",
 ]
@@ -255,6 +255,93 @@ def formdata(ctx):
         return False, "inv:differs", info
     return True, "form:ok", None
 
+CODEC_CONTENTS = [b"", b"a", b"line one\r\nline two = 2\r\n", b"trailing space \r\n\ttab", bytes(range(0, 256, 5)),
+                  "t\u00e9xt \u20ac".encode(), b"=" * 5 + b"x" * 80 + b"\r\n.\r\n", b"--b\r\nnot a boundary"]
+
+
+def codec_parts(ctx):
+    """Parts written with a Content-Transfer-Encoding (base64, quoted-printable, binary) and/or a
+    Content-Encoding (gzip, deflate) - binascii and zlib run natively on concrete content - come back
+    with identical bytes through read(decode=True), under a solver-chosen cut of the wire and a
+    solver-chosen second part; nested multipart bodies come back as the same tree."""
+    from aiohttp import multipart, payload
+    from aiohttp.streams import StreamReader
+
+    warnings.simplefilter("ignore")
+    loop = install(VLoop())
+    te = ctx.pick("transfer_encoding", [None, "base64", "quoted-printable", "binary"])
+    ce = ctx.pick("content_encoding", [None, "gzip", "deflate"])
+    content = ctx.pick("content", CODEC_CONTENTS)
+    nested = ctx.flag("nested")
+    if b"--b" in content and te != "base64" and ce is None:
+        # multipart requires that the delimiter does not occur in the (encoded) content; only an
+        # encoding that rewrites the bytes makes this content legal
+        return True, "codec:precondition", None
+    mw = multipart.MultipartWriter("mixed", boundary="b")
+    hdrs = {}
+    if te:
+        hdrs["Content-Transfer-Encoding"] = te
+    if ce:
+        hdrs["Content-Encoding"] = ce
+    info = {"transfer_encoding": te, "content_encoding": ce, "content": content.decode("latin1"), "nested": nested}
+    try:
+        if nested:
+            inner = multipart.MultipartWriter("mixed", boundary="inner")
+            inner.append_payload(payload.BytesPayload(content, headers=dict(hdrs)))
+            inner.append_payload(payload.BytesPayload(b"second inner"))
+            mw.append(inner)
+        else:
+            mw.append_payload(payload.BytesPayload(content, headers=dict(hdrs)))
+        mw.append_payload(payload.BytesPayload(b"tail part"))
+    except Exception as e:  # noqa: BLE001
+        return True, "codec:refused:" + type(e).__name__, None
+    w = _W()
+    _run(mw.write(w))
+    wire = bytes(w.out)
+    declared = mw.size
+    if declared is not None and declared != len(wire):
+        info.update(key="size-differs-from-bytes-written:codec-parts", declared=declared, written=len(wire))
+        return False, "inv:codec", info
+    sr = StreamReader(_Proto(), 2 ** 16, loop=loop)
+    reader = multipart.MultipartReader({"Content-Type": "multipart/mixed; boundary=b"}, sr)
+
+    async def read_tree(rd):
+        out = []
+        while True:
+            part = await rd.next()
+            if part is None:
+                break
+            if isinstance(part, multipart.MultipartReader):
+                out.append(await read_tree(part))
+            else:
+                out.append(bytes(await part.read(decode=True)))
+        return out
+
+    task = asyncio.Task(read_tree(reader), loop=loop)
+    marks = sorted({0, 1, len(wire) // 3, len(wire) // 2, len(wire) - 12, len(wire) - 5, len(wire) - 1})
+    cut = ctx.pick("cut", [m for m in marks if 0 <= m <= len(wire)])
+    for piece in (wire[:cut], wire[cut:]):
+        if piece:
+            sr.feed_data(piece)
+        loop.run_ready()
+    sr.feed_eof()
+    loop.run_ready()
+    if not task.done():
+        task.cancel()
+        loop.run_ready()
+        info.update(key="reader-stuck-after-eof:codec-parts")
+        return False, "inv:codec", info
+    if task.exception() is not None:
+        info.update(key=f"roundtrip-raises:{type(task.exception()).__name__}:codec-parts", detail=str(task.exception())[:200],
+                    wire=wire.decode("latin1")[:300])
+        return False, "inv:codec", info
+    got = task.result()
+    want = ([[content, b"second inner"]] if nested else [content]) + [b"tail part"]
+    if got != want:
+        info.update(key="part-content-differs:codec-parts", got=repr(got)[:300], wire=wire.decode("latin1")[:300])
+        return False, "inv:codec", info
+    return True, "codec:" + ("nested" if nested else "flat"), None
+
 
 def termination(ctx, n=5, prefix="--b\r\n", budget=6000):
     """arbitrary bytes after an optional valid opening: the driving loop ends"""
@@ -341,6 +428,7 @@ def jobs(tier):
     for n in ((3, 4, 5) if quick else (3, 4, 5, 6, 7)):
         out.append(dict(name=f"term-{n}", func="termination", params=dict(n=n), limits=lim))
     out.append(dict(name="formdata", func="formdata", params={}, limits=lim))
+    out.append(dict(name="codec-parts", func="codec_parts", params={}, limits=lim))
     out.append(dict(name="term-raw-5", func="termination", params=dict(n=5 if quick else 7, prefix=""), limits=lim))
     for c in ("abcde", "abcdefg") + (() if quick else ("abcdefghij",)):
         out.append(dict(name=f"b64-{len(c)}", func="base64_slicing", params=dict(content=c, maxcuts=3 if quick else 4),
@@ -358,7 +446,7 @@ REQUIRED_OUTCOMES = ("form-data:read:1", "mixed:chunks:1", "parts", "raise", "b6
 def bounds(tier):
     return {"roundtrip": "1 part of 0..4 (quick) / 0..6 symbolic bytes, 2 parts of 0..2 / 0..3, over {CR LF - b x}, boundary 'b', subtypes form-data (boundary scan) and mixed (Content-Length), 1-2 symbolic cuts of the wire, APIs read / read_chunk(5..7) / release",
             "termination": "'--b CRLF' + 3..5 (quick) / 3..7 symbolic bytes over {CR LF - b : x}; raw 5 / 7 symbolic bytes; loop budget 6000 callbacks",
-            "formdata": "FormData(default_to_multipart) with field name and filename from 8 strings (ASCII, Latin-1, non-BMP-free Unicode, space, quote, semicolon, backslash, percent), quote_fields on/off, charset None/utf-8, bytes or text content, one cut: size == bytes written; names come back verbatim or percent-decoded", "base64": "concrete contents of 5, 7 (and 10) bytes, every slicing into up to 4 (5) writes"}
+            "codec_parts": "Content-Transfer-Encoding in {none, base64, quoted-printable, binary} x Content-Encoding in {none, gzip, deflate} x 8 concrete contents x nested / flat x 7 cut positions: read(decode=True) returns the content", "formdata": "FormData(default_to_multipart) with field name and filename from 8 strings (ASCII, Latin-1, non-BMP-free Unicode, space, quote, semicolon, backslash, percent), quote_fields on/off, charset None/utf-8, bytes or text content, one cut: size == bytes written; names come back verbatim or percent-decoded", "base64": "concrete contents of 5, 7 (and 10) bytes, every slicing into up to 4 (5) writes"}
 
 
 def setup_models():
